@@ -150,7 +150,7 @@ def inline_comment_on_continued_line():
 
 
 def search(seed=0, keep_n=400):
-    hit = limit_off_case() or inline_comment_on_continued_line()
+    hit = limit_off_case() or inline_comment_on_continued_line() or preprocessed_fixed_case()
     if hit:
         return hit
     n = 0
@@ -175,3 +175,25 @@ def search(seed=0, keep_n=400):
 
 def count_cases(seed=0, keep_n=400):
     return sum(1 for _ in cases(seed, keep_n=keep_n))
+
+
+def preprocessed_fixed_case():
+    """a fixed-form file that goes through the preprocessor first (extension in both fixed_extensions and fpp_extensions, e.g. .F): the preprocessor's output is
+    fixed form too and must be converted like the file itself"""
+    import os
+    fixed = ("      subroutine foo(a,\n     &  b)\nC     an old-style comment line\n      integer a,\n     & b\n      a = 1\n      end subroutine foo\n")
+    free = "subroutine foo(a, &\n  b)\ninteger a, &\n b\na = 1\nend subroutine foo\n"
+    rd = loader.import_repo("ford.reader")
+    want = read(free, False)
+    with realrun.project_dir({"t.F": fixed}) as d:
+        import contextlib, io
+        try:
+            with contextlib.redirect_stdout(io.StringIO()):
+                got = [l for l in rd.FortranReader(os.path.join(d, "t.F"), fixed=True, length_limit=True, preprocessor=["pcpp", "-D__GFORTRAN__", "--passthru-comments"])]
+        except Exception as e:
+            got = f"{type(e).__name__}: {e}"
+    norm = lambda L: [re.sub(r"\s+", " ", x).strip() for x in L] if isinstance(L, list) else L
+    if norm(got) != norm(want):
+        return {"confirmed": True, "input": {"fixed": fixed, "preprocessor": "pcpp"}, "actual": got, "expected": want,
+                "how": "real FortranReader(fixed=True, preprocessor=[pcpp ...]) on a fixed-form .F file vs the free-form rendering"}
+    return None
